@@ -11,6 +11,7 @@ CONSTANTS
   Deviations = {"RenameKeepsLabel", "WsRemoveKeepsChild", "HoleRemovalKeepsObjectRows", "HoleRemovalKeepsGroupChild", "StalePgIdCache", "EmptyTableRaises", "TableByLabel"}
   MaxLevel = 4
   Acts = {"AddHole", "AddDepthData", "Protect", "Reopen", "RemoveDataViaWorkspace", "RemoveDataViaParent", "RemoveHoleViaWorkspace", "RemoveHoleViaParent", "CopyGroup"}
+  TrackSession = TRUE
   Kind = "float"
 VIEW vw
 INVARIANT ExportState
